@@ -218,6 +218,13 @@ def c09_unit(task):
     tabs = distrun.name_tables(psers)
     out["P"] = distrun.lean_partition(psers, tabs)
     out["py_clauses"] = distrun.py_check_clauses(psers)
+    prog_s, tab = distrun.lean_program(spec)
+    out["partition_query"] = f"(dist partition {distrun.NAME_BASE} {prog_s})"
+    canon, cproblems = distrun.real_partition_canonical(pa, spec, tab)
+    out["real_partition"] = canon
+    out["canon_problems"] = cproblems
+    out["skeleton_query"] = distrun.skeleton_query(spec)
+    out["real_skeleton"] = distrun.real_skeleton(psers)
     # batches as broadcast by rank 0
     try:
         real_batches = [sorted({_comm_id_tuple(spec, c) for c in b}) for b in pa.batches]
